@@ -1,4 +1,4 @@
 SPECIFICATION CSpec
-CONSTANTS MaxRef = 0  MaxHap = 0  Lens = {}  Gaps = {}  MaxWalk = 0
+CONSTANTS MaxRef = 0  MaxHap = 0  Lens = {}  Gaps = {}  MaxWalk = 0  HapBase = 10
 POSTCONDITION AllConsumed
 CHECK_DEADLOCK FALSE
